@@ -179,3 +179,43 @@ def graph_data(net):
         kinds.append('T' if isinstance(n, E.Transceiver) else 'R' if isinstance(n, E.Roadm) else
                      'F' if isinstance(n, E.Fiber) else 'L')
     return uids, idx, edges, kinds
+
+
+# --------------------------------------------------------------------------------------------------------------------
+# exhaustive small scope: every connected topology on 2..5 ROADMs up to isomorphism
+# --------------------------------------------------------------------------------------------------------------------
+
+def small_topologies(max_n=5):
+    """-> list of (n, [(a, b), ...]) : one representative per isomorphism class of connected simple graphs"""
+    out = []
+    for n in range(2, max_n + 1):
+        pairs = list(itertools.combinations(range(n), 2))
+        seen = set()
+        perms = list(itertools.permutations(range(n)))
+        for mask in range(1, 1 << len(pairs)):
+            edges = [pairs[i] for i in range(len(pairs)) if mask >> i & 1]
+            # connected?
+            adj = {i: set() for i in range(n)}
+            for a, b in edges:
+                adj[a].add(b)
+                adj[b].add(a)
+            comp, todo = {0}, [0]
+            while todo:
+                u = todo.pop()
+                for v in adj[u]:
+                    if v not in comp:
+                        comp.add(v)
+                        todo.append(v)
+            if len(comp) != n:
+                continue
+            canon = min(tuple(sorted(tuple(sorted((p[a], p[b]))) for a, b in edges)) for p in perms)
+            if canon in seen:
+                continue
+            seen.add(canon)
+            out.append((n, list(canon)))
+    return out
+
+
+def small_mesh(n, edges, lengths=(40, 50, 60, 70, 80, 90, 100, 110, 120, 30)):
+    return {'n': n, 'links': [[a, b, [lengths[i % len(lengths)]], [lengths[i % len(lengths)]], 'plain']
+                              for i, (a, b) in enumerate(edges)]}
